@@ -66,13 +66,16 @@ def shard_worker(job):
     c = contracts.REG[q]
     out = []
     seen = {}
+    open_count = 0
     for idx, o in enumerate(res.obligations):
         n = seen.get(o.name, 0)
         seen[o.name] = n + 1
         if idx % nshards != shard:
             continue
         name = o.name if n == 0 else '%s#%d' % (o.name, n + 1)
-        r = verify.discharge(_W, res.ex, o, c.unfold_depth, timeout_ms, seed)
+        r = verify.discharge(_W, res.ex, o, c.unfold_depth, timeout_ms, seed, effort=0 if open_count >= 2 else 1)
+        if r['verdict'] != 'unsat':
+            open_count += 1
         r.update({'func': q, 'name': name, 'kind': o.kind})
         out.append(r)
     if shard == 0:
@@ -83,6 +86,25 @@ def shard_worker(job):
             r = verify.discharge(_W, res.ex, ob, 1, 1500, seed, stages=False)
             r.update({'func': q, 'name': q.split('.')[-1] + '.' + nm, 'kind': 'canary'})
             out.append(r)
+    return out
+
+
+def retry_worker(job):
+    """last resort for obligations left undecided under load: once more, few processes, doubled budgets, more seeds"""
+    q, names, timeout_ms, seed = job
+    res = verify.verify_function(_W, q)
+    c = contracts.REG[q]
+    out = []
+    seen = {}
+    for o in res.obligations:
+        n = seen.get(o.name, 0)
+        seen[o.name] = n + 1
+        name = o.name if n == 0 else '%s#%d' % (o.name, n + 1)
+        if name not in names:
+            continue
+        r = verify.discharge(_W, res.ex, o, c.unfold_depth, timeout_ms * 2, seed + 7, effort=2)
+        r.update({'func': q, 'name': name, 'kind': o.kind})
+        out.append(r)
     return out
 
 
@@ -127,7 +149,7 @@ def run_property(prop, tier, seed, procs):
     if not targets:
         print('ERROR no contracts are tagged with property ' + prop)
         return 3
-    timeout_ms = 60000 if tier == 'thorough' else 30000
+    timeout_ms = 60000 if tier == 'thorough' else 12000
     ctx = mp.get_context('fork')
     with ctx.Pool(min(procs, len(targets))) as pool:
         gens = pool.map(count_worker, targets, chunksize=1)
@@ -157,6 +179,23 @@ def run_property(prop, tier, seed, procs):
                     meta[key] = {'kind': r['kind'], 'smt2': r.pop('smt2', None)}
                     r['name'] = key
                     results.append(r)
+    still = {}
+    for r in results:
+        if r['verdict'] != 'unsat' and meta[r['name']]['kind'] != 'canary':
+            still.setdefault(r['name'][0], []).append(r['name'][1])
+    if still and sum(len(v) for v in still.values()) <= 12:
+        jobs2 = [(q, names, timeout_ms, seed) for q, names in still.items()]
+        with ctx.Pool(min(4, len(jobs2))) as pool:
+            for rs in pool.map(retry_worker, jobs2, chunksize=1):
+                for r2 in rs:
+                    key = (r2['func'], r2['name'])
+                    for i, r in enumerate(results):
+                        if r['name'] == key:
+                            if r2['verdict'] == 'unsat':
+                                r2['name'] = key
+                                r2['stage'] = 'retry:' + r2.get('stage', '')
+                                results[i] = r2
+                            break
     if tier == 'thorough':
         # second opinion: every discharged obligation is also sent to cvc5; disagreement (sat) is a checker error
         pass
@@ -219,8 +258,9 @@ def run_property(prop, tier, seed, procs):
     # ---------------- verdict
     out_lines = []
     known_hits = []
-    os.makedirs(os.path.join(BASE, 'replays', prop), exist_ok=True)
-    for old in glob.glob(os.path.join(BASE, 'replays', prop, '*.json')):
+    RP = os.environ.get('VERIF_REPLAY_DIR', os.path.join(BASE, 'replays'))
+    os.makedirs(os.path.join(RP, prop), exist_ok=True)
+    for old in glob.glob(os.path.join(RP, prop, '*.json')):
         os.unlink(old)
     reported = set()
     for q, f in native_found.items():
@@ -228,7 +268,7 @@ def run_property(prop, tier, seed, procs):
         if k is not None:
             known_hits.append(k)
             continue
-        path = os.path.join(BASE, 'replays', prop, _safe(q.split('.')[-1] + '.' + f['clause']) + '.json')
+        path = os.path.join(RP, prop, _safe(q.split('.')[-1] + '.' + f['clause']) + '.json')
         rec = dict(f)
         rec.update({'property': prop, 'kind': 'native-counterexample',
                     'failed_obligations': [n for fq, n, _ in failed if fq == q],
@@ -245,7 +285,7 @@ def run_property(prop, tier, seed, procs):
             known_hits.append(k)
             continue
         if r['verdict'] == 'sat':
-            path = os.path.join(BASE, 'replays', prop, _safe(name) + '.json')
+            path = os.path.join(RP, prop, _safe(name) + '.json')
             json.dump({'property': prop, 'kind': 'failed-obligation', 'function': func, 'obligation': name,
                        'solver': r['solver'], 'verdict': 'sat', 'time_s': r['time_s'], 'model': r.get('model'),
                        'note': 'the solver refuted the obligation; the bounded differential search found no failing input on the real code',
@@ -258,7 +298,7 @@ def run_property(prop, tier, seed, procs):
     for q, why in unsupported:
         out_lines.append('UNSUPPORTED %s %s: %s' % (prop, q, why))
     for func, name, r in undecided:
-        out_lines.append('UNDECIDED %s %s (%s) z3 %s %.1fs%s' % (prop, name, func, r['verdict'], r['time_s'], ', cvc5 ' + r['cvc5'] if 'cvc5' in r else ''))
+        out_lines.append('UNDECIDED %s %s (%s) z3 %s %.1fs%s [%s %s]' % (prop, name, func, r['verdict'], r['time_s'], ', cvc5 ' + r['cvc5'] if 'cvc5' in r else '', r.get('stage', ''), r.get('reason', '')))
     for func, name in canary_bad:
         out_lines.append('VACUOUS %s %s: False is provable on this path' % (prop, name))
     for q, tb in errors:
@@ -311,8 +351,9 @@ def run_property(prop, tier, seed, procs):
     ev = {'property_id': prop, 'tier': tier, 'seed': seed, 'level': level, 'coverage': cov,
           'assumptions': ASSUMPTIONS + contracts.PROP_ASSUMPTIONS.get(prop, []) if hasattr(contracts, 'PROP_ASSUMPTIONS') else ASSUMPTIONS,
           'wall_s': round(time.time() - t_start, 2), 'violations': len(violations)}
-    os.makedirs(os.path.join(BASE, 'evidence'), exist_ok=True)
-    json.dump(ev, open(os.path.join(BASE, 'evidence', prop + '.json'), 'w'), indent=1)
+    EV = os.environ.get('VERIF_EVIDENCE_DIR', os.path.join(BASE, 'evidence'))
+    os.makedirs(EV, exist_ok=True)
+    json.dump(ev, open(os.path.join(EV, prop + '.json'), 'w'), indent=1)
     return code
 
 
